@@ -27,6 +27,7 @@ func c23Cfg() *txCfg {
 	add("begin", 3)
 	add("setac", 1)
 	add("switch", 1)
+	add("newbranch", 3)
 	add("doltcommit", 6)
 	return &txCfg{id: "C23", sessMin: 2, sessMax: 4, tablesMax: 1, branchMin: 1, branchMax: 2, vcolMin: 3, vcolMax: 4,
 		pkMax: 4, stepsMin: 20, stepsMax: 50, ops: ops, kindWeights: [4]int{3, 1, 14, 2}, pkPredPercent: 85, branchChoices: []int{1, 1, 1, 2}, crossBranchWrites: false, acOnPercent: 10}
@@ -36,6 +37,7 @@ func TestVerif_C23(t *testing.T) {
 	rec := vh.NewRecorder("C23", "commit_merge", "exploration", c23Rule,
 		"the harness owns the schedule at statement granularity; commits never overlap in time (the CAS retry loop is exercised by the goroutine variant only)",
 		"for rows on which Merge3(head at start, head now, committer's view) itself conflicts the head row after dolt_commit is not asserted (the property does not define it); the observed head is adopted",
+		"up to two branches are created mid-schedule by a separate autocommit session; an open transaction may reference such a branch (result of that statement not asserted), its later reads and its commit are asserted against the unchanged snapshot",
 		"a transaction writes to one branch only; dolt_commit is issued only when the pending writes are on the session's current branch",
 		"SET autocommit=1 is not issued with pending writes; after a dolt_commit inside BEGIN the session's next statement is COMMIT or ROLLBACK",
 		"known finding C22-autocommit-stale-tx-after-failed-dml (open, listed for C23 too): after a failed DML in an autocommit session the session's next statement is ROLLBACK; counted in excluded_known",
